@@ -215,6 +215,14 @@ func runC18(r *mc.Run) {
 			o.Verification.Now = &now
 		}},
 		{"revocation-without-collateral", func(p *world.QuoteParts, o *rtmr.ParseTdxCcelOpts) { o.Verification.CheckRevocations = true }},
+		{"carried-root-is-an-expired-issue-of-the-trusted-root", func(p *world.QuoteParts, o *rtmr.ParseTdxCcelOpts) {
+			old := world.MakeCert(world.CertSpec{CN: world.CNRoot, IsCA: true, Key: T.RootKey, MaxPathLen: 1, Serial: big.NewInt(0x0c18), NotBefore: world.T0.AddDate(-10, 0, 0), NotAfter: world.T0.AddDate(0, 0, -3)}, nil, T.RootKey)
+			p.Chain = world.PEM(T.Leaf, T.Inter, old)
+		}},
+		{"carried-intermediate-is-an-expired-issue", func(p *world.QuoteParts, o *rtmr.ParseTdxCcelOpts) {
+			old := world.MakeCert(world.CertSpec{CN: world.CNPlatform, IsCA: true, Key: T.InterKey, MaxPathLen: -1, Serial: big.NewInt(0x1c18), NotBefore: world.T0.AddDate(-10, 0, 0), NotAfter: world.T0.AddDate(0, 0, -3)}, T.Root, T.RootKey)
+			p.Chain = world.PEM(T.Leaf, old, T.Root)
+		}},
 		{"zeroed-signature", func(p *world.QuoteParts, o *rtmr.ParseTdxCcelOpts) { p.Sig = make([]byte, 64) }},
 		// faults that only exist with collateral / revocation checking on
 		{"L1:tcbinfo-endpoint-down", func(p *world.QuoteParts, o *rtmr.ParseTdxCcelOpts) {
